@@ -202,18 +202,27 @@ def dropFailing (k : Key) : State → List Mapping → List Mapping → State ×
 removes the *last* occurrence of `k`. -/
 def removeLast (k : Key) (l : List Key) : List Key := (l.reverse.erase k).reverse
 
-/-- body of the `for k in to_remove` loop of `release_absorbed_keys` -/
-def releaseOneAbsorbed (s : State) (k : Key) : State × List Event :=
-  let (s1, e1) := dropFailing k s s.active.reverse []
+/-- `if pass.contains(k) { emit Released(k); remove its last occurrence }` followed by
+`input_pressed_keys.retain(|k2| k2 != k)` — the tail shared by `newly_release` and by the body of the
+`for k in to_remove` loop of `release_absorbed_keys`. -/
+def releaseTail (s : State) (k : Key) : State × List Event :=
   let (s2, e2) :=
-    if s1.pass.contains k then ({ s1 with pass := removeLast k s1.pass }, [Event.released k])
-    else (s1, [])
-  ({ s2 with inp := s2.inp.filter (fun k2 => k2 != k) }, e1 ++ e2)
+    if s.pass.contains k then ({ s with pass := removeLast k s.pass }, [Event.released k])
+    else (s, [])
+  ({ s2 with inp := s2.inp.filter (fun k2 => k2 != k) }, e2)
+
+/-- The code shared (textually duplicated in Rust) by `newly_release` and the body of the
+`for k in to_remove` loop of `release_absorbed_keys`: drop every active mapping whose trigger
+contains `k`, release `k` if it is passed through, forget `k` as input. -/
+def releaseKey (s : State) (k : Key) : State × List Event :=
+  let (s1, e1) := dropFailing k s s.active.reverse []
+  let (s2, e2) := releaseTail s1 k
+  (s2, e1 ++ e2)
 
 def releaseAbsorbedLoop : State → List Key → State × List Event
   | s, [] => (s, [])
   | s, k :: ks =>
-    let (s1, e1) := releaseOneAbsorbed s k
+    let (s1, e1) := releaseKey s k
     let (s2, e2) := releaseAbsorbedLoop s1 ks
     (s2, e1 ++ e2)
 
@@ -228,65 +237,91 @@ def shouldAbsorb (s : State) (newKey : Key) : Bool :=
   | some t => t != newKey
   | none => true
 
+/-- `add_new_mapping`, first part: the `retain` over the pass-through keys. -/
+def addPhase1 (s : State) (m : Mapping) : State × List Event :=
+  let c := consume m s.pass
+  ({ s with pass := c.1, mapped := s.mapped ++ c.2.1 }, c.2.2)
+
+/-- `add_new_mapping`, second part: the `if is_action_mapping(m) { … }` block. -/
+def addPhase2 (s : State) (newKey : Key) (m : Mapping) : State × List Event :=
+  if isActionMapping m then
+    let r1 := releaseActionMappings s
+    if shouldAbsorb r1.1 newKey then
+      let r2 := releaseAbsorbedKeys r1.1
+      (r2.1, r1.2 ++ r2.2)
+    else r1
+  else (s, [])
+
+/-- `add_new_mapping`, third part: the press loop over `m.to`, the absorbing bookkeeping, and the
+push of `m` onto the active list. -/
+def addPhase3 (s : State) (newKey : Key) (m : Mapping) : State × List Event :=
+  let r := pressAll s m.to
+  let s1 := { r.1 with absorbed := addAbsorbed r.1.absorbed m.absorbing }
+  let s2 := if m.absorbing.length > 0 then { s1 with absTrig := some newKey } else s1
+  ({ s2 with active := s2.active ++ [m] }, r.2)
+
+/-- `add_new_mapping`, last part: the `match &m.repeat`. -/
+def addPhase4 (s : State) (newKey : Key) (m : Mapping) : State × List Event × RRepeat :=
+  match m.rep with
+  | Repeat.normal => (s, [], RRepeat.disabled)
+  | Repeat.disabled =>
+    let r := releaseAllActionKeys s
+    (r.1, r.2, RRepeat.disabled)
+  | Repeat.special keys delay interval =>
+    let r := releaseAllActionKeys s
+    ({ r.1 with repTrig := some newKey }, r.2, RRepeat.repeating keys delay interval)
+
 /-- `add_new_mapping` -/
 def addNewMapping (s : State) (newKey : Key) (m : Mapping) : State × StepResult :=
-  let (keep, moved, ev0) := consume m s.pass
-  let s := { s with pass := keep, mapped := s.mapped ++ moved }
-  let (s, ev1) :=
-    if isActionMapping m then
-      let (s1, e1) := releaseActionMappings s
-      if shouldAbsorb s1 newKey then
-        let (s2, e2) := releaseAbsorbedKeys s1
-        (s2, e1 ++ e2)
-      else (s1, e1)
-    else (s, [])
-  let (s, ev2) := pressAll s m.to
-  let s := { s with absorbed := addAbsorbed s.absorbed m.absorbing }
-  let s := if m.absorbing.length > 0 then { s with absTrig := some newKey } else s
-  let s := { s with active := s.active ++ [m] }
-  let events := ev0 ++ ev1 ++ ev2
-  match m.rep with
-  | Repeat.normal => (s, ⟨events, RRepeat.disabled⟩)
-  | Repeat.disabled =>
-    let (s1, e3) := releaseAllActionKeys s
-    (s1, ⟨events ++ e3, RRepeat.disabled⟩)
-  | Repeat.special keys delay interval =>
-    let (s1, e3) := releaseAllActionKeys s
-    ({ s1 with repTrig := some newKey }, ⟨events ++ e3, RRepeat.repeating keys delay interval⟩)
+  let r1 := addPhase1 s m
+  let r2 := addPhase2 r1.1 newKey m
+  let r3 := addPhase3 r2.1 newKey m
+  let r4 := addPhase4 r3.1 newKey m
+  (r4.1, ⟨r1.2 ++ r2.2 ++ r3.2 ++ r4.2.1, r4.2.2⟩)
 
 /-- The group `mappings.get(&k)` of the hashed layout: the layout's mappings whose final trigger
 key is `k`, in layout order (`make_hashed_layout` pushes in layout order). -/
 def group (L : Layout) (k : Key) : List Mapping := L.filter fun m => finalKey? m == some k
 
+/-- the pass-through branch of `newly_press` (`if !any_hit { if !pass.contains(&k) { … } }`) -/
+def passThrough (s : State) (k : Key) : State × List Event :=
+  let r :=
+    if isActionKey k then
+      let r1 := releaseActionMappings s
+      let r2 := releaseAbsorbedKeys r1.1
+      (r2.1, r1.2 ++ r2.2)
+    else (s, [])
+  ({ r.1 with pass := r.1.pass ++ [k] }, r.2 ++ [Event.pressed k])
+
+/-- the state after the first two statements of `newly_press` -/
+def pressPrep (s : State) (k : Key) : State :=
+  { s with absorbed := s.absorbed.filter (fun k2 => k2 != k), repTrig := none }
+
+/-- the mapping `newly_press` fires, if any: the last mapping of the group that is supported -/
+def findMapping (L : Layout) (s : State) (k : Key) : Option Mapping :=
+  let s0 := pressPrep s k
+  let absorbedKeys := if shouldAbsorb s0 k then s0.absorbed else []
+  (group L k).reverse.find? (fun m => isSupported m.frm s0.inp absorbedKeys k)
+
 /-- `newly_press` -/
 def newlyPress (L : Layout) (s : State) (k : Key) : State × StepResult :=
-  let s := { s with absorbed := s.absorbed.filter (fun k2 => k2 != k), repTrig := none }
-  let absorbedKeys := if shouldAbsorb s k then s.absorbed else []
-  match (group L k).reverse.find? (fun m => isSupported m.frm s.inp absorbedKeys k) with
+  let s0 := pressPrep s k
+  match findMapping L s k with
   | some m =>
-    let (s1, r) := addNewMapping s k m
-    ({ s1 with inp := s1.inp ++ [k] }, r)
+    let r := addNewMapping s0 k m
+    ({ r.1 with inp := r.1.inp ++ [k] }, r.2)
   | none =>
-    let anyHit := s.active.any fun m => m.frm.contains k || m.to.contains k
-    if !anyHit && !s.pass.contains k then
-      let (s1, ev) :=
-        if isActionKey k then
-          let (s1, e1) := releaseActionMappings s
-          let (s2, e2) := releaseAbsorbedKeys s1
-          (s2, e1 ++ e2)
-        else (s, [])
-      ({ s1 with pass := s1.pass ++ [k], inp := s1.inp ++ [k] },
-       ⟨ev ++ [Event.pressed k], RRepeat.disabled⟩)
+    let anyHit := s0.active.any fun m => m.frm.contains k || m.to.contains k
+    if !anyHit && !s0.pass.contains k then
+      let r := passThrough s0 k
+      ({ r.1 with inp := r.1.inp ++ [k] }, ⟨r.2, RRepeat.disabled⟩)
     else
-      ({ s with inp := s.inp ++ [k] }, ⟨[], RRepeat.disabled⟩)
+      ({ s0 with inp := s0.inp ++ [k] }, ⟨[], RRepeat.disabled⟩)
 
 /-- `newly_release` -/
 def newlyRelease (s : State) (k : Key) : State × StepResult :=
-  let (s1, e1) := dropFailing k s s.active.reverse []
-  let (s2, e2) :=
-    if s1.pass.contains k then ({ s1 with pass := removeLast k s1.pass }, [Event.released k])
-    else (s1, [])
-  ({ s2 with inp := s2.inp.filter (fun k2 => k2 != k) }, ⟨e1 ++ e2, RRepeat.disabled⟩)
+  let (s1, e1) := releaseKey s k
+  (s1, ⟨e1, RRepeat.disabled⟩)
 
 /-- `Mapper::step` -/
 def step (L : Layout) (s : State) (e : Event) : State × StepResult :=
